@@ -19,7 +19,7 @@ type Case struct {
 	Out    *RunOut `json:"out,omitempty"`
 }
 
-func evCoq(e *Ev) string {
+func evCoq(e *Ev, hint []int) string {
 	p := cg.NatList(e.Path)
 	switch e.Kind {
 	case "started":
@@ -27,9 +27,9 @@ func evCoq(e *Ev) string {
 	case "skipping":
 		parts := strings.Split(e.Key, ":")
 		if parts[0] == "once" {
-			return fmt.Sprintf("EvSkipping (KOnce %s) []", parts[1])
+			return fmt.Sprintf("EvSkipping (KOnce %s) %s", parts[1], cg.NatList(hint))
 		}
-		return fmt.Sprintf("EvSkipping (KWhen %s %s) []", parts[1], parts[2])
+		return fmt.Sprintf("EvSkipping (KWhen %s %s) %s", parts[1], parts[2], cg.NatList(hint))
 	case "announce":
 		return fmt.Sprintf("EvAnnounce %s %d", p, e.I)
 	case "probe":
@@ -53,7 +53,7 @@ func (c *Case) Coq() string {
 	var obs []string
 	for _, o := range c.Out.Obs {
 		if o.Arr {
-			obs = append(obs, fmt.Sprintf("OArr %d (%s) %s", o.ID, evCoq(o.Ev), cg.NatList(o.Hint)))
+			obs = append(obs, fmt.Sprintf("OArr %d (%s) %s", o.ID, evCoq(o.Ev, o.Hint), cg.NatList(o.Hint)))
 		} else {
 			obs = append(obs, fmt.Sprintf("ORel %d", o.ID))
 		}
@@ -62,7 +62,7 @@ func (c *Case) Coq() string {
 	if c.Out.Result != "" {
 		final = "(Some " + c.Out.Result + ")"
 	}
-	agree := c.Procs == 1 && c.Stream == "acyclic"
+	agree := c.Procs == 1 && c.Stream != "cyclic"
 	return fmt.Sprintf("{| ec_prog := %s; ec_cfg := %s; ec_obs := %s; ec_final := %s; ec_complete := %s; ec_agree := %s |}",
 		ts, cfg, cg.List(obs), final, cg.Bool(c.Out.Result != ""), cg.Bool(agree))
 }
@@ -93,6 +93,9 @@ func Main(args []string) {
 			if o.Extra["cyclic"] != "" && i%40 == 39 {
 				c.Stream = "cyclic"
 				c.Prog = Gen(cr, GenOpts{MaxTasks: 4, Cyclic: true, NoGuards: true, MaxActs: 30})
+			} else if i%5 == 1 {
+				c.Stream = "directed"
+				c.Prog = Directed(cr)
 			} else {
 				c.Prog = Gen(cr, GenOpts{MaxTasks: 7, MaxActs: 28})
 			}
@@ -187,7 +190,7 @@ func Main(args []string) {
 	}
 	obs.Cases = len(cases)
 	fmt.Fprintf(&sb, "Definition cases : list ecase := %s.\n", cg.List(items))
-	names := []string{"C01", "calls", "C02", "C03", "C03s", "C06", "C07", "C13", "C14"}
+	names := []string{"C01", "calls", "waits", "C02", "C03", "C03s", "C06", "C07", "C13", "C14", "eager"}
 	for _, n := range names {
 		fmt.Fprintf(&sb, "Definition R_%s := Eval vm_compute in failures (ecase_mon_%s) cases.\nPrint R_%s.\n", n, n, n)
 	}
